@@ -28,6 +28,8 @@ namespace OomdModel.Kill
   unfold nextPidfd; split <;> rfl
 @[simp] theorem nextMrelease_evs (env : Env) : (nextMrelease env).evs = [] := by
   unfold nextMrelease; split <;> rfl
+@[simp] theorem nextEvents_evs (s : Option Bool) (env : Env) : (nextEvents s env).evs = [] := by
+  unfold nextEvents; split <;> rfl
 
 /-! ## sizes -/
 
@@ -745,33 +747,37 @@ theorem kernelCount_pos (v : View) : 0 < kernelCount v := by
   · split <;> omega
   · omega
 
-/-- the kernelkill branch: freeze write, then nothing more (cgroup.events unreadable or `populated 0`), or the
-    cgroup.kill write failed, or it succeeded and reap + completion xattrs follow -/
+/-- the kernelkill branch: freeze write, then nothing more (cgroup.events, read afresh, is unreadable or says `populated 0`),
+    or the cgroup.kill write failed, or it succeeded and reap + completion xattrs follow -/
 theorem kernelBranch_spec (cfg : KillCfg) (v : View) (env : Env) : ∃ f W,
     (kernelBranch cfg v env).evs = .write v.id .freeze f :: W ∧
-    ((W = [] ∧ (kernelBranch cfg v env).val.getD 0 = 0) ∨
-     (∃ k, k < 0 ∧ W = [.write v.id .kill k] ∧ (kernelBranch cfg v env).val = none) ∨
+    ((W = [] ∧ (kernelBranch cfg v env).val.getD 0 = 0 ∧
+        (nextEvents v.info.populated (nextWrite env).env).val ≠ some true) ∨
+     (∃ k, k < 0 ∧ W = [.write v.id .kill k] ∧ (kernelBranch cfg v env).val = none ∧
+        (nextEvents v.info.populated (nextWrite env).env).val = some true) ∨
      (∃ k Rp o1 c1 o2 c2, 0 ≤ k ∧
         W = .write v.id .kill k :: (Rp ++ [.setxattr v.id .killT (.num (parseCount o1 + kernelCount v)) o1 c1,
                                            .setxattr v.id .killU (.num (parseCount o2 + kernelCount v)) o2 c2]) ∧
         (∀ e ∈ Rp, ReapPhaseEv (subtreeIds v) e) ∧ (Rp ≠ [] → cfg.reapMemory = true) ∧
-        (kernelBranch cfg v env).val = some (kernelCount v) ∧ v.info.populated = some true)) := by
+        (kernelBranch cfg v env).val = some (kernelCount v) ∧
+        (nextEvents v.info.populated (nextWrite env).env).val = some true)) := by
   refine ⟨(nextWrite env).val, ((kernelBranch cfg v env).evs.drop 1), ?_, ?_⟩
   · simp [kernelBranch]
-  · cases hp : v.info.populated with
+  · cases hp : (nextEvents v.info.populated (nextWrite env).env).val with
     | none => left; simp [kernelBranch, hp]
     | some b =>
       cases b with
       | false => left; simp [kernelBranch, hp]
       | true =>
         right
-        by_cases hk : (nextWrite (nextWrite env).env).val < 0
+        by_cases hk : (nextWrite (nextEvents v.info.populated (nextWrite env).env).env).val < 0
         · left
-          exact ⟨_, hk, by simp [kernelBranch, hp, hk], by simp [kernelBranch, hp, hk]⟩
+          exact ⟨_, hk, by simp [kernelBranch, hp, hk], by simp [kernelBranch, hp, hk], rfl⟩
         · right
           obtain ⟨Rp, o1, c1, o2, c2, hf, hr1, hr2, hv⟩ :=
-            finishKill_spec cfg v (kernelCount v) (nextWrite (nextWrite env).env).env
-          refine ⟨(nextWrite (nextWrite env).env).val, Rp, o1, c1, o2, c2, by omega, ?_, hr1, fun h => (hr2 h).1, ?_, rfl⟩
+            finishKill_spec cfg v (kernelCount v) (nextWrite (nextEvents v.info.populated (nextWrite env).env).env).env
+          refine ⟨(nextWrite (nextEvents v.info.populated (nextWrite env).env).env).val, Rp, o1, c1, o2, c2, by omega, ?_, hr1,
+            fun h => (hr2 h).1, ?_, rfl⟩
           · simp [kernelBranch, hp, hk, hf]
           · simp [kernelBranch, hp, hk, hv]
 
@@ -836,7 +842,7 @@ theorem attempt_kernel (cfg : KillCfg) (v : View) (k : Nat) (env : Env)
   obtain ⟨o3, c3, o4, c4, ho⟩ := reportOoms_evs v.id (reportUuid v.id k env).env
   obtain ⟨f, W, hw, hcases⟩ := kernelBranch_spec cfg v (reportOoms v.id (reportUuid v.id k env).env).env
   refine ⟨o1, c1, o2, c2, o3, c3, o4, c4, f, ?_⟩
-  rcases hcases with ⟨hW, hv⟩ | ⟨wk, hneg, hW, hv⟩ | ⟨wk, Rp, o5, c5, o6, c6, hpos, hW, hR, _, hv, _⟩
+  rcases hcases with ⟨hW, hv, _⟩ | ⟨wk, hneg, hW, hv, _⟩ | ⟨wk, Rp, o5, c5, o6, c6, hpos, hW, hR, _, hv, _⟩
   · left
     have hv' : ¬ (0 < (kernelBranch cfg v (reportOoms v.id (reportUuid v.id k env).env).env).val.getD 0) := by omega
     constructor
@@ -851,6 +857,47 @@ theorem attempt_kernel (cfg : KillCfg) (v : View) (k : Nat) (env : Env)
     refine ⟨wk, Rp, o5, c5, o6, c6, hpos, ?_, hR, ?_⟩
     · simp [tryToLogAndKill, tryToKillCgroup, hd, hk, hu, ho, hw, hW, hv, hp, logKill]
     · simp [tryToLogAndKill, tryToKillCgroup, hd, hk, hv, hp]
+
+/-! ### the kernelkill branch reads cgroup.events afresh -/
+
+theorem nextXattr_events (env : Env) : (nextXattr env).env.events = env.events := by
+  unfold nextXattr; split <;> rfl
+theorem nextWrite_events (env : Env) : (nextWrite env).env.events = env.events := by
+  unfold nextWrite; split <;> rfl
+
+theorem reportUuid_events (cg k : Nat) (env : Env) : (reportUuid cg k env).env.events = env.events := by
+  simp [reportUuid, nextXattr_events]
+theorem reportOoms_events (cg : Nat) (env : Env) : (reportOoms cg env).env.events = env.events := by
+  simp [reportOoms, nextXattr_events]
+
+theorem nextEvents_head (s a : Option Bool) (rest : List (Option Bool)) (env : Env) (h : env.events = a :: rest) :
+    (nextEvents s env).val = a := by
+  unfold nextEvents; rw [h]
+
+/-- A wet kernelkill attempt whose own read of cgroup.events does not say `populated 1` - whatever the tick's sample said -
+    writes nothing to cgroup.kill, signals nobody and is no success: the kill-accounting xattrs of the start of the attempt and
+    the freeze write are all it leaves. -/
+theorem attempt_kernel_not_populated (cfg : KillCfg) (v : View) (k : Nat) (env : Env)
+    (hd : cfg.dry = false) (hk : cfg.kernelKill = true) (a : Option Bool) (rest : List (Option Bool))
+    (he : env.events = a :: rest) (ha : a ≠ some true) : ∃ o1 c1 o2 c2 o3 c3 o4 c4 f,
+    (tryToLogAndKill cfg v k env).evs =
+        [.setxattr v.id .uuidT (.uuid k) o1 c1, .setxattr v.id .uuidU (.uuid k) o2 c2,
+         .setxattr v.id .oomsT (.num (parseCount o3 + 1)) o3 c3, .setxattr v.id .oomsU (.num (parseCount o4 + 1)) o4 c4,
+         .write v.id .freeze f] ∧ (tryToLogAndKill cfg v k env).val = false := by
+  obtain ⟨o1, c1, o2, c2, hu⟩ := reportUuid_evs v.id k env
+  obtain ⟨o3, c3, o4, c4, ho⟩ := reportOoms_evs v.id (reportUuid v.id k env).env
+  obtain ⟨f, W, hw, hcases⟩ := kernelBranch_spec cfg v (reportOoms v.id (reportUuid v.id k env).env).env
+  have hfresh : (nextEvents v.info.populated (nextWrite (reportOoms v.id (reportUuid v.id k env).env).env).env).val = a := by
+    apply nextEvents_head _ a rest
+    rw [nextWrite_events, reportOoms_events, reportUuid_events, he]
+  refine ⟨o1, c1, o2, c2, o3, c3, o4, c4, f, ?_⟩
+  rcases hcases with ⟨hW, hv, _⟩ | ⟨wk, _, _, _, h2⟩ | ⟨wk, Rp, o5, c5, o6, c6, _, _, _, _, _, h3⟩
+  · have hv' : ¬ (0 < (kernelBranch cfg v (reportOoms v.id (reportUuid v.id k env).env).env).val.getD 0) := by omega
+    constructor
+    · simp [tryToLogAndKill, tryToKillCgroup, hd, hk, hu, ho, hw, hW, hv']
+    · simp [tryToLogAndKill, tryToKillCgroup, hd, hk, hv']
+  · exact absurd (hfresh ▸ h2) ha
+  · exact absurd (hfresh ▸ h3) ha
 
 theorem KillPhaseEv.ok {vid : Nat} {ids : List Nat} {e : Ev} (h : KillPhaseEv ids e) : EvOK vid ids e := by
   cases e <;> simp_all [KillPhaseEv, EvOK]
